@@ -68,6 +68,11 @@ class AORun:
         sched.name_for_thread = name_for_thread
         ao = ma.ActiveObject(name="ao", instrumented=bool(cfg.get("spied", False)))
         self.ao = ao
+        if cfg.get("live"):
+          # live spy / live trace on: every line goes through the writer thread's queue while posters keep posting
+          ao.live_spy, ao.live_trace = True, True
+          ao.register_live_spy_callback(lambda line: None)
+          ao.register_live_trace_callback(lambda line: None)
         ao.locking_deque.deque.vname = "dq"
         ao.locking_deque.locking_queue.vname = "tokens"
         me.snaps = {}
